@@ -109,7 +109,7 @@ def strategy(ctx):
 
 
 def budget(ctx):
-    return dict(max_examples=ctx.pick(1200, 16000), shards=16)
+    return dict(max_examples=ctx.pick(1200, 48000), shards=16)
 
 
 def warmup():
